@@ -1,5 +1,8 @@
 """C19 - samplers stay on their domain; Bezier evaluation matches the Bernstein form."""
+import copy
+import gc
 import math
+import pickle
 import random
 import numpy as np
 from hypothesis import strategies as st
@@ -64,7 +67,7 @@ def sig6(x):
     return float(f"{x:.6g}")
 
 
-SPECIAL_COUNTS = [27, 8, 64, 100, 9, 16, 243, 256, 343, 400, 32, 4, 3, 2, 1, 0]
+SPECIAL_COUNTS = [27, 8, 64, 100, 9, 16, 243, 256, 343, 400, 32, 4, 3, 2, 1, 0, 255, 257, 256]
 
 
 def mixer(draw):
@@ -83,8 +86,10 @@ def rslog(rnd, lo=-3.0, hi=3.0):
     return rlog(rnd, lo, hi) * rnd.choice([-1.0, 1.0])
 
 
-def draw_count(draw, rnd):
+def draw_count(draw, rnd, huge_ok=False):
     c = rnd.random()
+    if huge_ok and c > 0.99:
+        return rnd.choice([65535, 65536, 65537])   # vectorised samplers only: a count around 2**16
     if c < 0.02:
         return rnd.choice([1000, 1024, 5000])      # size regime: well above the stated 0-400 and above any plausible internal threshold
     if c < 0.15:
@@ -148,9 +153,11 @@ def grid_resolution(n, d):
 def box_case(draw):
     rnd = mixer(draw)
     d = rnd.randint(1, 5)
-    kind = rnd.choice(["unit", "centered", "int", "int", "general", "general", "general", "thin", "far", "far", "empty"])
+    kind = rnd.choice(["unit", "near-unit", "centered", "int", "int", "general", "general", "general", "thin", "far", "far", "empty"])
     if kind == "unit":
         lo, hi = [0.0] * d, [1.0] * d
+    elif kind == "near-unit":                   # within 1e-5 of the unit cube: an isclose()-style shortcut must not fire
+        lo, hi = [rnd.choice([0.0, 8e-6, -8e-6]) for _ in range(d)], [rnd.choice([1.000008, 0.999992, 1.0]) for _ in range(d)]
     elif kind == "centered":
         lo, hi = [-0.5] * d, [0.5] * d
     elif kind == "int":
@@ -177,9 +184,13 @@ def box_case(draw):
         for k in range(d):
             if not hi[k] > lo[k]:
                 hi[k] = lo[k] + 1.0
-    return {"lo": lo, "hi": hi, "kind": kind, "mode": rnd.choice(["uniform", "grid"]), "n": draw_count(draw, rnd),
-            "pc": rnd.random() < 0.3, "ctor": rnd.choice(["tuple", "list", "numpy"]),
-            "again": [rnd.choice(["uniform", "grid"]), rnd.choice([0, 1, 2, 5, 30, 64, 81]), rnd.random() < 0.3] if rnd.random() < 0.3 else None}
+    n = draw_count(draw, rnd, huge_ok=True)
+    return {"lo": lo, "hi": hi, "kind": kind, "mode": rnd.choice(["uniform", "grid"]), "n": n,
+            "pc": rnd.random() < 0.3 and n < 10000, "ctor": rnd.choice(["tuple", "list", "numpy"]),
+            "again": [rnd.choice(["uniform", "grid"]), rnd.choice([0, 1, 2, 5, 30, 64, 81, 255, 256, 257]), rnd.random() < 0.3] if rnd.random() < 0.3 else None,
+            # between the two requests the box is enlarged by its documented mutator pad()
+            "pad": rnd.choice([0.5, 1e-3, [0.25] * d, [float(k) for k in range(d)]]) if rnd.random() < 0.5 else None,
+            "clone": rnd.choice(["copy", "deepcopy", "pickle"]) if rnd.random() < 0.1 else None, "n_np": rnd.random() < 0.12}
 
 
 def fn_box(case, ctx):
@@ -190,12 +201,27 @@ def fn_box(case, ctx):
     args = (conv(lo), conv(hi))
     box = AABB(*args)
     ctx.label("dim=%d" % d, "mode=" + mode, "kind=" + case["kind"], "pc" if pc else "array",
-              "n=0" if n == 0 else "n=1" if n == 1 else "n>1" if n < 1000 else "n>=1000")
+              "n=0" if n == 0 else "n=1" if n == 1 else "n>1" if n < 1000 else "n>=1000" if n < 60000 else "n~2^16")
+    if case.get("clone"):
+        ctx.label("clone=" + case["clone"])
+        box = clone_of(box, case["clone"])
+    if case.get("n_np"):
+        ctx.label("numpy-int-count")
     check_box(box, args, case, n, mode, pc, ctx)
     if case.get("again") and case["kind"] != "empty":
         ctx.label("second-call")
         mode2, n2, pc2 = case["again"]
-        check_box(box, args, case, n2, mode2, pc2 and d <= 3, ctx, note=f" [second request on the same AABB object, after mode={mode!r}]", first=False)
+        case2, note = case, f" [second request on the same AABB object, after mode={mode!r}]"
+        if case.get("pad") is not None:
+            ctx.label("padded-between-calls")
+            pad = case["pad"]
+            ok, _ = ctx.call("box:pad", box.pad, pad)
+            if not ok:
+                return
+            pv = pad if isinstance(pad, list) else [pad] * d
+            case2 = dict(case, lo=[l - q for l, q in zip(lo, pv)], hi=[h + q for h, q in zip(hi, pv)], arg_lo=lo, arg_hi=hi)
+            note = f" [second request on the same AABB object, after mode={mode!r} and box.pad({pad})]"
+        check_box(box, args, case2, n2, mode2, pc2 and d <= 3, ctx, note=note, first=False)
 
 
 def check_box(box, args, case, n, mode, pc, ctx, note="", first=True):
@@ -211,13 +237,13 @@ def check_box(box, args, case, n, mode, pc, ctx, note="", first=True):
         ctx.label("expect-raise")
         expect_raises(ctx, "box:pc-highdim", (ValueError,), what, sampling.sample_AABB, box, n, mode=mode, return_point_cloud=pc)
         return
-    ok, res = ctx.call("box:call", sampling.sample_AABB, box, n, mode=mode, return_point_cloud=pc)
+    ok, res = ctx.call("box:call", sampling.sample_AABB, box, np.int64(n) if case.get("n_np") else n, mode=mode, return_point_cloud=pc)
     if not ok:
         return
     # neither the box handed in nor the corner sequences it was built from are altered by sampling it
     L, H = np.array(lo, dtype=float), np.array(hi, dtype=float)
     ctx.check(bool(np.all(np.asarray(box.mini, dtype=float) == L) and np.all(np.asarray(box.maxi, dtype=float) == H)
-                   and list(args[0]) == list(lo) and list(args[1]) == list(hi)), "box:mutated",
+                   and list(args[0]) == list(case.get("arg_lo", lo)) and list(args[1]) == list(case.get("arg_hi", hi))), "box:mutated",
               f"{what}: the box changed to {box} (corner arguments now {args})")
     P = as_points(res, pc, ctx, "box")
     if P is None:
@@ -308,7 +334,7 @@ def draw_radius(draw, rnd):
     if c < 0.08:
         return 1.0
     if c < 0.3:
-        return rnd.choice([0.5, 2.0, 8.0, 1e-3, 1e3, 0.9, 1.1, 2, 5, 1e-6, 1e6])      # 2, 5: integer-typed radius
+        return rnd.choice([0.5, 2.0, 8.0, 1e-3, 1e3, 0.9, 1.1, 2, 5, 1e-6, 1e6, 1.000008, 0.999992])      # 2, 5: integer-typed radius
     if c < 0.4:
         return rlog(rnd, -6, 6)
     return rlog(rnd)
@@ -320,16 +346,20 @@ def round_case(draw):
     c = draw_center(draw, rnd)
     if all(float(x).is_integer() for x in c) and rnd.random() < 0.6:
         c = [int(x) for x in c]                                                      # integer-typed Vec centre
+    n = draw_count(draw, rnd, huge_ok=True)
     return {"which": rnd.choice(["sphere", "ball"]), "center": c, "radius": draw_radius(draw, rnd),
-            "n": draw_count(draw, rnd), "pc": rnd.random() < 0.3,
-            "again": [rnd.choice(["sphere", "ball"]), rnd.randint(0, 60), rnd.random() < 0.3] if rnd.random() < 0.3 else None}
+            "n": n, "pc": rnd.random() < 0.3 and n < 10000,
+            "again": [rnd.choice(["sphere", "ball"]), rnd.randint(0, 60), rnd.random() < 0.3] if rnd.random() < 0.3 else None,
+            # between the two requests the caller moves the centre object in place
+            "shift": [rnd.choice([1, -2, 10]) for _ in range(3)] if rnd.random() < 0.5 else None,
+            "clone": rnd.choice(["copy", "deepcopy", "pickle"]) if rnd.random() < 0.1 else None, "n_np": rnd.random() < 0.12}
 
 
-def check_round(which, centre, c, r, n, pc, ctx, note=""):
+def check_round(which, centre, c, r, n, pc, ctx, note="", n_np=False):
     from mouette import sampling
     f = sampling.sample_sphere if which == "sphere" else sampling.sample_ball
     what = f"sample_{which}(Vec{tuple(c)}, {r!r}, {n}, return_point_cloud={pc}){note}"
-    ok, res = ctx.call(which + ":call", f, centre, r, n, return_point_cloud=pc)
+    ok, res = ctx.call(which + ":call", f, centre, r, np.int64(n) if n_np else n, return_point_cloud=pc)
     if not ok:
         return
     ctx.check(len(centre) == 3 and all(type(a) is type(b) and a == b for a, b in zip(centre.tolist(), c)), which + ":centre-mutated",
@@ -361,19 +391,32 @@ def fn_round(case, ctx):
     import mouette as M
     c, r, n, pc, which = case["center"], case["radius"], case["n"], case["pc"], case["which"]
     ctx.label(which, "r<1" if r < 1 else "r=1" if r == 1 else "r>1", "centre=0" if not any(c) else "centre!=0",
-              "pc" if pc else "array", "n=0" if n == 0 else "n>0" if n < 1000 else "n>=1000", "r in 1e-3..1e3" if 1e-3 <= r <= 1e3 else "r extreme")
+              "pc" if pc else "array", "n=0" if n == 0 else "n>0" if n < 1000 else "n>=1000" if n < 60000 else "n~2^16",
+              "r~1" if r != 1 and abs(r - 1) < 1e-4 else "r-not-near-1", "r in 1e-3..1e3" if 1e-3 <= r <= 1e3 else "r extreme")
     if isinstance(c[0], int):
         ctx.label("int-centre")
     if isinstance(r, int):
         ctx.label("int-radius")
     ctx.nontrivial((r != 1 or any(c)) and n > 0)
     centre = M.Vec(*c)
-    check_round(which, centre, c, r, n, pc, ctx)
+    if case.get("clone"):
+        ctx.label("clone=" + case["clone"])
+        centre = clone_of(centre, case["clone"])
+    if case.get("n_np"):
+        ctx.label("numpy-int-count")
+    check_round(which, centre, c, r, n, pc, ctx, n_np=bool(case.get("n_np")))
     if case.get("again"):
         # the same Vec object is the centre of a second request
         ctx.label("second-call")
         w2, n2, pc2 = case["again"]
-        check_round(w2, centre, c, r, n2, pc2, ctx, note=f" [second use of the centre object, after sample_{which}]")
+        note = f" [second use of the centre object, after sample_{which}]"
+        if case.get("shift"):
+            ctx.label("centre-moved-in-place")
+            sh = case["shift"] if isinstance(c[0], int) else [float(x) for x in case["shift"]]
+            centre += np.array(sh)
+            c = [a + b for a, b in zip(c, sh)]
+            note = f" [second use of the centre object, after sample_{which} and `centre += {sh}`]"
+        check_round(w2, centre, c, r, n2, pc2, ctx, note=note)
 
 
 # =============================================================================================== polylines
@@ -414,6 +457,43 @@ def add_degenerate_faces(rnd, V, F):
     new = [[a, b, m], [b, c, m], [c, a, m]]
     rnd.shuffle(new)
     return V, F[:k] + new + F[k + 1:], "degenerate=" + how
+
+
+def insert_unused_vertex(rnd, V, elems):
+    """an isolated vertex (belongs to no edge / face) at id 0, a middle id or the last id; elements are renumbered"""
+    V, where = [list(v) for v in V], rnd.choice(["first", "middle", "last"])
+    k = {"first": 0, "middle": len(V) // 2, "last": len(V)}[where]
+    a, b = V[rnd.randrange(len(V))], V[rnd.randrange(len(V))]
+    V.insert(k, [(x + y) / 2 + (abs(x) + abs(y) + 1e-3) * 0.25 for x, y in zip(a, b)])
+    return V, [[v + (v >= k) for v in e] for e in elems], "unused-vertex=" + where
+
+
+def history_extras(rnd, V, F=None):
+    """optional history of a mesh-sampling case (every geometry is stored in the case):
+    V2       - the vertices are moved IN PLACE (component writes) to this geometry between the first and the second request
+    recycle  - two other geometries of the same connectivity: a mesh is built on each, sampled, dropped and garbage collected before the
+               mesh of the case is built (an id()-keyed cache would hand the data of a dead object to the new one at the same address)
+    clone    - the mesh is sampled through copy.copy / copy.deepcopy / a pickle round trip of itself
+    n_np     - the count is passed as numpy.int64"""
+    out = {"V2": None, "recycle": None, "clone": None, "n_np": rnd.random() < 0.12}
+    if rnd.random() < 0.5:
+        out["V2"] = stale_geometry(rnd, V, F, allow_dup=True)
+    if rnd.random() < 0.1:
+        g = [stale_geometry(rnd, V, F, allow_dup=True) for _ in range(2)]
+        out["recycle"] = [x for x in g if x] or None
+    if rnd.random() < 0.12:
+        out["clone"] = rnd.choice(["copy", "deepcopy", "pickle"])
+    return out
+
+
+def clone_of(obj, how):
+    return {"copy": copy.copy, "deepcopy": copy.deepcopy, "pickle": lambda x: pickle.loads(pickle.dumps(x))}[how](obj)
+
+
+def move_in_place(mesh, V2):
+    for i, p in enumerate(V2):
+        for k in range(3):
+            mesh.vertices[i][k] = float(p[k])
 
 
 def add_zero_edge(rnd, V, E):
@@ -511,13 +591,21 @@ def polylines(draw, mix, min_edges=1):
         if len(E) < min_edges:
             pts.append((1001, 1001, 1001)); E.append((n - 1, n)); n += 1
     E = [[int(a), int(b)] if rnd.randint(2) else [int(b), int(a)] for a, b in E]
+    order = mix.choice(["as-built", "shuffled", "shuffled", "reversed"])        # the edge list need not follow the vertex numbering
+    if order == "shuffled":
+        mix.shuffle(E)
+    elif order == "reversed":
+        E = E[::-1]
     s = 10.0 ** mix.choice(SCALES)
     off = s * mix.choice([0.0, 0.0, 1.0, -7.5, 100.0])
     V = [[sig6(x * 1e-3 * s + off) if off == 0 else float(x * 1e-3 * s + off) for x in p] for p in pts]
-    tags = ["kind=" + kind, "planar" if planar else "spatial", "scale=%g" % s]
+    tags = ["kind=" + kind, "planar" if planar else "spatial", "scale=%g" % s, "edge-order=" + order]
     if mix.random() < 0.25:
         V, E = add_zero_edge(mix, V, E)
         tags.append("zero-length-edge")
+    if mix.random() < 0.2:
+        V, E, t = insert_unused_vertex(mix, V, E)
+        tags.append(t)
     return {"V": V, "E": E, "tags": tags + ["edges=%s" % (len(E) if len(E) < 3 else ">=3")]}
 
 
@@ -528,6 +616,9 @@ def polyline_case(draw):
     p.update({"n": draw_count(draw, rnd), "pc": rnd.random() < 0.3,
               "V0": stale_geometry(rnd, p["V"], allow_dup=True) if rnd.random() < 0.4 else None,
               "again": [rnd.randint(0, 80), rnd.random() < 0.3] if rnd.random() < 0.3 else None})
+    p.update(history_extras(rnd, p["V"]))
+    if len(p["E"]) > 1000:
+        p["n"] = min(p["n"], 300)              # (the oracle is O(points x edges) in memory)
     return p
 
 
@@ -537,6 +628,16 @@ def seg_dist(P, A, B):
     d = (B - A)[None, :, :]
     t = np.clip(np.sum(D * d, axis=2) / np.maximum(np.sum(d * d, axis=2), 1e-300), 0.0, 1.0)
     return np.linalg.norm(D - t[:, :, None] * d, axis=2)
+
+
+def history_labels(case, ctx):
+    ctx.label("moved-in-place" if case.get("V2") else "not-moved")
+    if case.get("recycle"):
+        ctx.label("recycled-objects")
+    if case.get("clone"):
+        ctx.label("clone=" + case["clone"])
+    if case.get("n_np"):
+        ctx.label("numpy-int-count")
 
 
 def mesh_snapshot(mesh):
@@ -563,7 +664,7 @@ def check_polyline_sample(mesh, case, n, pc, ctx, note=""):
     V, E = np.array(case["V"], dtype=float), case["E"]
     what = f"sample_polyline(<{len(V)} vertices, edges {E}>, {n}, return_point_cloud={pc})" + STALE_NOTE * bool(case.get("V0")) + note
     snap = mesh_snapshot(mesh)
-    ok, res = ctx.call("polyline:call", sampling.sample_polyline, mesh, n, return_point_cloud=pc)
+    ok, res = ctx.call("polyline:call", sampling.sample_polyline, mesh, np.int64(n) if case.get("n_np") else n, return_point_cloud=pc)
     if not ok:
         return
     check_unchanged(mesh, snap, ctx, "polyline", what)
@@ -589,9 +690,22 @@ def fn_polyline(case, ctx):
         ctx.label(t)
     ctx.label("pc" if pc else "array", "n=0" if n == 0 else "n>0" if n < 1000 else "n>=1000", "edges>1000" if len(E) > 1000 else "edges<=1000")
     ctx.nontrivial(len(E) >= 2 and n > 0)
+    history_labels(case, ctx)
+    for g in case.get("recycle") or []:
+        tmp_case = dict(case, V=g, V0=None)
+        tmp = polyline_from(g, E)
+        check_polyline_sample(tmp, tmp_case, 40, False, ctx, note=" [short-lived mesh, dropped and garbage collected before the next one is built]")
+        del tmp
+        gc.collect()
     mesh = build_mesh(case, "polyline", ctx)
-    check_polyline_sample(mesh, case, n, pc, ctx)
-    if case.get("again"):
+    if case.get("clone"):
+        mesh = clone_of(mesh, case["clone"])
+    check_polyline_sample(mesh, case, n, pc, ctx, note=f" [on a {case['clone']} of the mesh]" if case.get("clone") else "")
+    if case.get("V2"):
+        move_in_place(mesh, case["V2"])
+        check_polyline_sample(mesh, dict(case, V=case["V2"], V0=None), max(n, 30) if n < 1000 else 60, pc, ctx,
+                              note=" [second request, after every vertex of the same mesh object was moved in place]")
+    if case.get("again") and not case.get("V2"):
         ctx.label("second-call")
         # an independent polyline is sampled in between (no state may be shared between mesh objects)
         other = {"V": [[100.0, 0.0, 0.0], [103.0, 0.0, 0.0], [103.0, 4.0, 0.0], [103.0, 4.0, 12.0]], "E": [[0, 1], [2, 1], [2, 3]]}
@@ -618,6 +732,9 @@ def scaled_trisurf(draw, mix, max_faces=60, degenerate=True):
             V, F, t = add_degenerate_faces(mix, V, F)
             tags = tags + [t]
         tags.append("degenerate-faces")
+    if degenerate and mix.random() < 0.15:
+        V, F, t = insert_unused_vertex(mix, V, F)
+        tags.append(t)
     return {"V": V, "F": F, "tags": tags}
 
 
@@ -630,6 +747,9 @@ def surface_case(draw):
     s.update({"n": draw_count(draw, rnd), "pc": rnd.random() < 0.5, "normals": rnd.random() < 0.6 and not deg,
               "V0": stale_geometry(rnd, s["V"], s["F"], allow_dup=True) if rnd.random() < 0.4 else None})
     s["again"] = [rnd.randint(0, 80), rnd.random() < 0.5, rnd.random() < 0.5 and not deg] if rnd.random() < 0.3 else None
+    s.update(history_extras(rnd, s["V"], s["F"]))
+    if len(s["F"]) > 1000:
+        s["n"] = min(s["n"], 300)              # (the oracle is O(points x faces) in memory)
     return s
 
 
@@ -667,7 +787,7 @@ def check_surface_sample(mesh, case, n, pc, wn, ctx, note=""):
     what = (f"sample_surface(<{len(V)} vertices, {len(F)} triangles>, {n}, return_point_cloud={pc}, return_normals={wn})"
             + STALE_NOTE * bool(case.get("V0")) + note)
     snap = mesh_snapshot(mesh)
-    ok, res = ctx.call("surface:call", sampling.sample_surface, mesh, n, return_point_cloud=pc, return_normals=wn)
+    ok, res = ctx.call("surface:call", sampling.sample_surface, mesh, np.int64(n) if case.get("n_np") else n, return_point_cloud=pc, return_normals=wn)
     if not ok:
         return
     check_unchanged(mesh, snap, ctx, "surface", what)
@@ -719,13 +839,26 @@ def check_surface_sample(mesh, case, n, pc, wn, ctx, note=""):
 def fn_surface(case, ctx):
     F, n, pc, wn = case["F"], case["n"], case["pc"], case["normals"]
     for t in case["tags"]:
-        if t.startswith(("base=", "scale=", "closed", "bordered", "degenerate", "big-mesh")):
+        if t.startswith(("base=", "scale=", "closed", "bordered", "degenerate", "big-mesh", "unused-vertex")):
             ctx.label(t)
     ctx.label("pc" if pc else "array", "normals" if wn else "no-normals", "n=0" if n == 0 else "n>0" if n < 1000 else "n>=1000")
     ctx.nontrivial(len(F) >= 2 and n > 0)
+    history_labels(case, ctx)
+    for g in case.get("recycle") or []:
+        tmp_case = dict(case, V=g, V0=None)
+        tmp = surface_from(g, F)
+        check_surface_sample(tmp, tmp_case, 40, False, wn, ctx, note=" [short-lived mesh, dropped and garbage collected before the next one is built]")
+        del tmp
+        gc.collect()
     mesh = build_mesh(case, "surface", ctx, normals=wn or bool(case.get("again") and case["again"][2]))
-    check_surface_sample(mesh, case, n, pc, wn, ctx)
-    if case.get("again"):
+    if case.get("clone"):
+        mesh = clone_of(mesh, case["clone"])
+    check_surface_sample(mesh, case, n, pc, wn, ctx, note=f" [on a {case['clone']} of the mesh]" if case.get("clone") else "")
+    if case.get("V2"):
+        move_in_place(mesh, case["V2"])
+        check_surface_sample(mesh, dict(case, V=case["V2"], V0=None), max(n, 30) if n < 1000 else 60, pc, wn, ctx,
+                             note=" [second request, after every vertex of the same mesh object was moved in place]")
+    if case.get("again") and not case.get("V2"):
         ctx.label("second-call")
         n2, pc2, wn2 = case["again"]
         other = {"V": [[100.0, 0.0, 0.0], [104.0, 0.0, 0.0], [100.0, 3.0, 0.0], [104.0, 3.0, 5.0]], "F": [[0, 1, 2], [1, 3, 2]]}
@@ -766,6 +899,7 @@ def stat_case(draw, kind):
             if p["V0"]:
                 break
     p["salt"] = rnd.randrange(10 ** 6)       # only varies the seed derived from the case
+    p["clone"] = rnd.choice(["copy", "deepcopy", "pickle"]) if rnd.random() < 0.15 else None
     return p
 
 
@@ -777,6 +911,8 @@ def fn_stat(case, ctx):
     if case["kind"] == "polyline":
         E = np.array(case["E"], dtype=int)
         mesh = build_mesh(case, "polyline", ctx)
+        if case.get("clone"):
+            mesh = clone_of(mesh, case["clone"]); ctx.label("clone=" + case["clone"])
         ok, P = ctx.call("stat:call", sampling.sample_polyline, mesh, N_STAT)
         if not ok:
             return
@@ -791,6 +927,8 @@ def fn_stat(case, ctx):
     else:
         F = np.array(case["F"], dtype=int)
         mesh = build_mesh(case, "surface", ctx)
+        if case.get("clone"):
+            mesh = clone_of(mesh, case["clone"]); ctx.label("clone=" + case["clone"])
         ok, P = ctx.call("stat:call", sampling.sample_surface, mesh, N_STAT)
         if not ok:
             return
@@ -815,7 +953,7 @@ def fn_stat(case, ctx):
     uneven = float(share.max() / share[share > 0].min()) >= 2.0
     ctx.label("uneven" if uneven else "even")
     for t in case.get("tags", []):
-        if t in ("degenerate-faces", "zero-length-edge"):
+        if t in ("degenerate-faces", "zero-length-edge") or t.startswith(("edge-order=", "unused-vertex", "kind=")):
             ctx.label(t)
     if (share == 0).any():
         ctx.label("zero-share-not-last" if share[-1] > 0 else "zero-share-last")
@@ -863,7 +1001,9 @@ def fn_stat_ball(case, ctx):
 
 # =============================================================================================== Bezier
 
-T_IN = st.one_of(st.sampled_from([0.0, 1.0, 0.5, 0.25, 0.75, 0, 1, 1e-9, 1 - 1e-9]), st.floats(0.0, 1.0, allow_nan=False).map(sig6))
+T_IN = st.one_of(st.sampled_from([0.0, 1.0, 0.5, 0.25, 0.75, 0, 1, 1e-9, 1 - 1e-9, 5e-324, 2.220446049250313e-16, 0.9999999999999999,
+                                  0.5000000000000001, 8e-6, 0.999992]),
+                 st.floats(0.0, 1.0, allow_nan=False).map(sig6))
 T_OUT = st.one_of(st.sampled_from([-1e-9, 1.000000001, -1.0, 2.0, -0.5, 1.5, -1, 2, float("nan"), float("inf"), float("-inf"), 1e300, -1e-300]),
                   st.floats(1.0, 10.0, exclude_min=True), st.floats(-10.0, 0.0, exclude_max=True).filter(lambda x: x < 0))
 
@@ -894,6 +1034,11 @@ CTORS = ["list", "numpy", "vec", "generator"]
 def curve_case(draw):
     rnd = mixer(draw)
     deg = rnd.choice([0, 1, 2, 3, 4, 5, 6, draw(st.integers(0, 6))])
+    c = rnd.random()
+    if c < 0.015:
+        deg = rnd.choice([16, 17, 18, 32, 33, 64, 66])         # degree regime: around 2**4, 2**5, 2**6
+    elif c < 0.03:
+        deg = rnd.choice([67, 68, 70, 100])                    # C(67,33) > 2**63: binomials no longer fit a 64-bit integer
     P, style, point = control_net(rnd, (deg + 1,))
     custom = None
     if rnd.random() < 0.2:
@@ -905,7 +1050,9 @@ def curve_case(draw):
             "ctor": rnd.choice(CTORS + ["numpy-int", "vec-int"] * (style == "int")),
             # history: control points of the already evaluated / exported curve are edited, then everything is asked again
             "edits": [[rnd.randrange(deg + 1), point(), rnd.choice(["rebind", "in-place"])] for _ in range(rnd.choice([1, 1, 2]))]
-                     if rnd.random() < 0.5 else None}
+                     if rnd.random() < 0.5 else None,
+            "t_np": rnd.random() < 0.15, "clone": rnd.choice(["copy", "deepcopy", "pickle"]) if rnd.random() < 0.15 else None,
+            "recycle": rnd.random() < 0.12}
 
 
 def directions(seed, dim):
@@ -946,8 +1093,24 @@ def fn_curve(case, ctx):
             "vec": lambda: [M.Vec(*p) for p in case["P"]], "numpy-int": lambda: np.array(case["P"]).astype(int),
             "vec-int": lambda: [M.Vec(*[int(x) for x in p]) for p in case["P"]],
             "generator": lambda: (list(p) for p in case["P"])}[case["ctor"]]           # one-shot iterable
-    ctx.label("deg=%d" % deg, "dim=%d" % dim, "style=" + case["style"], "custom" if case["custom"] else "linspace", "ctor=" + case["ctor"])
+    ctx.label("deg=%d" % deg if deg <= 6 else "deg=16..66" if deg <= 66 else "deg>=67", "dim=%d" % dim, "style=" + case["style"],
+              "custom" if case["custom"] else "linspace", "ctor=" + case["ctor"])
     ctx.nontrivial(deg >= 2)
+    npt = (lambda t: (np.int64(t) if isinstance(t, int) else np.float64(t))) if case.get("t_np") else (lambda t: t)
+    if case.get("t_np"):
+        ctx.label("numpy-parameter")
+    if case.get("recycle"):
+        # short-lived objects of the same shape, dropped and garbage collected before the curve of the case is built
+        ctx.label("recycled-objects")
+        for Q in (P[::-1] * 0.5 + 1.0, -2.0 * P - 3.0):
+            tmp = BezierCurve([list(q) for q in Q])
+            for t in case["ts_in"][:2]:
+                ok, val = ctx.call("curve:evaluate", tmp.evaluate, t)
+                if ok:
+                    ctx.check(ctx.close(np.asarray(val, dtype=float), RB.curve(Q, t), 1e-12, 2.0 * scale + 3.0), "curve:bernstein",
+                              f"short-lived curve with control points {Q.tolist()}: evaluate({t!r}) = {val}")
+            del tmp
+            gc.collect()
     arg = ctor()
     curve = BezierCurve(arg)
     ctx.check(curve.order == deg, "curve:order", f"order = {curve.order!r} for {deg + 1} control points")
@@ -957,7 +1120,7 @@ def fn_curve(case, ctx):
 
     def evaluate(t, tag, garble=False):
         nonlocal P, scale
-        ok, raw = ctx.call("curve:evaluate", curve.evaluate, t)
+        ok, raw = ctx.call("curve:evaluate", curve.evaluate, npt(t))
         if not ok:
             return None
         val = vec_of(raw, dim, ctx, "curve:evaluate", f"evaluate({t!r})")
@@ -1025,6 +1188,16 @@ def fn_curve(case, ctx):
     if case["ctor"] != "generator":
         ctx.check(bool(np.all(np.asarray(arg, dtype=float) == P)), "curve:argument-mutated", f"the control point argument {case['P']} became {np.asarray(arg, dtype=float).tolist()}")
 
+    if case.get("clone"):
+        ctx.label("clone=" + case["clone"])
+        twin, original = clone_of(curve, case["clone"]), curve
+        curve = twin                                    # (the closures above now talk to the clone)
+        for t in case["ts_in"]:
+            evaluate(t, f"on a {case['clone']} of the curve object")
+        export(None, case["n"], f" [on a {case['clone']} of the curve object]")
+        if case["clone"] == "copy":
+            curve = original
+
     # ---- history: the same object after its control points were edited (and after another curve object was used in between)
     if case.get("edits"):
         ctx.label("edited-net")
@@ -1065,10 +1238,15 @@ def fn_curve(case, ctx):
 def patch_case(draw):
     rnd = mixer(draw)
     m, n = rnd.randint(0, 4), rnd.randint(0, 4)
+    high = rnd.random() < 0.012
+    if high:                                    # degree regime in one direction of the net (see curve_case)
+        m, n = rnd.choice([(67, 0), (0, 68), (17, 1), (1, 17), (68, 1), (1, 70), (33, 2)])
     P, style, point = control_net(rnd, (m + 1, n + 1))
     n1 = rnd.randint(2, 9)
     n2 = n1 if rnd.random() < 0.2 else rnd.randint(2, 9)
-    if rnd.random() < 0.03:                     # size regime: a resolution well above the documented default of 20
+    if high:
+        n1, n2 = rnd.randint(2, 4), rnd.randint(2, 4)
+    elif rnd.random() < 0.03:                   # size regime: a resolution well above the documented default of 20
         n1, n2 = rnd.choice([(24, 3), (3, 25), (21, 22)])
     uv = [[sig6(rnd.random()), sig6(rnd.random())] for _ in range(rnd.randint(1, 3))]
     return {"P": P, "style": style, "uv_in": uv + draw(st.lists(st.tuples(T_IN, T_IN).map(list), max_size=3)),
@@ -1076,7 +1254,9 @@ def patch_case(draw):
             "n1": n1, "n2": n2, "dir_seed": rnd.randrange(10 ** 6),
             "ctor": rnd.choice(CTORS + ["numpy-int", "vec-int"] * (style == "int")),
             "edits": [[rnd.randrange(m + 1), rnd.randrange(n + 1), point(), rnd.choice(["rebind", "in-place"])] for _ in range(rnd.choice([1, 1, 2]))]
-                     if rnd.random() < 0.5 else None}
+                     if rnd.random() < 0.5 else None,
+            "t_np": rnd.random() < 0.15, "clone": rnd.choice(["copy", "deepcopy", "pickle"]) if rnd.random() < 0.15 else None,
+            "recycle": rnd.random() < 0.12}
 
 
 def fn_patch(case, ctx):
@@ -1096,7 +1276,21 @@ def fn_patch(case, ctx):
     ctx.label("deg=%dx%d" % (m, n) if max(m, n) < 2 else "deg>=2", "dim=%d" % dim, "style=" + case["style"],
               "n1=n2" if n1 == n2 else "n1<n2" if n1 < n2 else "n1>n2", "square-net" if m == n else "rect-net")
     ctx.nontrivial(n1 != n2)
-    ctx.label("ctor=" + case["ctor"])
+    ctx.label("ctor=" + case["ctor"], "high-degree" if max(m, n) > 16 else "deg<=4")
+    npt = (lambda t: (np.int64(t) if isinstance(t, int) else np.float64(t))) if case.get("t_np") else (lambda t: t)
+    if case.get("t_np"):
+        ctx.label("numpy-parameter")
+    if case.get("recycle"):
+        ctx.label("recycled-objects")
+        for Q in (P[::-1, ::-1] * 0.5 + 1.0, -2.0 * P - 3.0):
+            tmp = BezierPatch([[list(q) for q in row] for row in Q])
+            for u, v in case["uv_in"][:2]:
+                ok, val = ctx.call("patch:evaluate", tmp.evaluate, u, v)
+                if ok:
+                    ctx.check(ctx.close(np.asarray(val, dtype=float), RB.patch(Q, u, v), 1e-12, 2.0 * scale + 3.0), "patch:bernstein",
+                              f"short-lived patch with control net {Q.tolist()}: evaluate({u!r},{v!r}) = {val}")
+            del tmp
+            gc.collect()
     arg = ctor()
     patch = BezierPatch(arg)
     ctx.check(tuple(patch.order) == (m, n), "patch:order", f"order = {patch.order!r} for a {m + 1} x {n + 1} control net")
@@ -1111,7 +1305,7 @@ def fn_patch(case, ctx):
         flat = P.reshape(-1, dim)
 
     def evaluate(u, v, tag, garble=False):
-        ok, raw = ctx.call("patch:evaluate", patch.evaluate, u, v)
+        ok, raw = ctx.call("patch:evaluate", patch.evaluate, npt(u), npt(v))
         if not ok:
             return None
         val = vec_of(raw, dim, ctx, "patch:evaluate", f"evaluate({u!r},{v!r})")
@@ -1195,6 +1389,16 @@ def fn_patch(case, ctx):
     ctx.check(now.shape == P.shape and bool(np.all(now == P)), "patch:control-points-mutated", f"control net {case['P']} became {now.tolist()}")
     if case["ctor"] != "generator":
         ctx.check(bool(np.all(np.asarray(arg, dtype=float) == P)), "patch:argument-mutated", f"the control net argument {case['P']} became {np.asarray(arg, dtype=float).tolist()}")
+
+    if case.get("clone"):
+        ctx.label("clone=" + case["clone"])
+        twin, original = clone_of(patch, case["clone"]), patch
+        patch = twin                                    # (the closures above now talk to the clone)
+        for u, v in case["uv_in"]:
+            evaluate(u, v, f"on a {case['clone']} of the patch object")
+        export(n1, n2, f" [on a {case['clone']} of the patch object]")
+        if case["clone"] == "copy":
+            patch = original
 
     # ---- history: the same object after its control points were edited (and after another patch object was used in between)
     if case.get("edits"):
